@@ -7,7 +7,7 @@
    are unbounded integers.  Result: CSubmit t acc (transaction t reached the node, which took it
    iff acc; a nil error is returned iff acc), CRefuse (error, nothing reached the node), CPanic. *)
 From Coq Require Import String List NArith ZArith Bool.
-From MevVerif Require Import lib.Bytes model.Cancel check.Check_C10 proofs.Cancel_proofs.
+From MevVerif Require Import lib.Bytes gen.Generated model.Cancel check.Check_C10 proofs.Cancel_proofs.
 Import ListNotations.
 Open Scope Z_scope.
 
@@ -55,13 +55,52 @@ Theorem C10_refuse : forall c l tip price s b,
 Proof. exact refuse. Qed.
 Print Assumptions C10_refuse.
 
-(* Unknown and already-mined targets are refused with the NotFound error. *)
+(* Unknown and already-mined targets are refused with the NotFound error (a returned error, no crash). *)
 Theorem C10_refuse_unknown_or_mined : forall c l tip price s b,
   l = LErr true \/ (exists t, l = LFound t false) ->
   submitted (cancel c l tip price s b) = None /\ ret_ok (cancel c l tip price s b) = false /\
-  ret_notfound (cancel c l tip price s b) = true.
+  ret_notfound (cancel c l tip price s b) = true /\ cancel c l tip price s b <> CPanic.
 Proof. exact refuse_unknown_or_mined. Qed.
 Print Assumptions C10_refuse_unknown_or_mined.
+
+(* "Reuses that transaction's nonce and chain id".  Nonce: C10_shape.  Chain id: the replacement carries the
+   CLIENT's chain id; that is the original's chain id exactly when the original was signed for the client's
+   chain -- true of every transaction this client sent (Send and CancelTx both put c.chainID; observed on
+   every accepted transaction by the C08 driver and in the C10 class own-original).  For an original of
+   another chain (driver classes with "foreign") the replacement does not reuse the original's chain id; it
+   could not replace it anyway. *)
+Theorem C10_chain_id : forall c l tip price s b t acc (oc : Z),
+  cancel c l tip price s b = CSubmit t acc ->
+  x_chain t = chain c /\ (oc = chain c -> x_chain t = oc) /\ (oc <> chain c -> x_chain t <> oc).
+Proof. exact chain_id. Qed.
+Print Assumptions C10_chain_id.
+
+(* The single crash of the model: a lookup that answers "no error, pending" with a nil transaction is
+   dereferenced.  Partial with respect to "refused with an error": for this answer nothing is submitted
+   (C10_refuse) but no error is returned either.  Not producible by the production transport: ethclient's
+   TransactionByHash maps a JSON null to (nil, false, NotFound), an undecodable object to an error, and
+   WrapEthClient does not override it (driver classes wire-state-notfound, wire-state-garbage); only an EVM
+   implementation breaking that contract (the scripted one, class state-nilpending) reaches it. *)
+Theorem C10_nil_pending_panics_partial : forall c l tip price s b,
+  cancel c l tip price s b = CPanic <-> l = LFound None true.
+Proof. exact panic_iff. Qed.
+Print Assumptions C10_nil_pending_panics_partial.
+
+(* Observation (not a clause of the property): CancelTx does not test that the target is one of this
+   client's transactions or from its account; any pending transaction the node returns gets a replacement
+   carrying that transaction's nonce.  Compositions that talk about "nonces this sender issued" need the
+   premise that cancelled hashes are hashes Send returned (Compose_chain.own_targets). *)
+Theorem C10_any_pending_target : forall c o sug price b,
+  exists t, cancel c (LFound (Some o) true) (TipOk sug) price true b = CSubmit t b /\ x_nonce t = o_nonce o.
+Proof. exact any_pending_target. Qed.
+Print Assumptions C10_any_pending_target.
+
+(* CancelTx holds the client mutex like Send (c.mtx.Lock / deferred c.mtx.Unlock inside EvmClient.CancelTx,
+   regenerated from evmclient.go on every run): the combined machine's steps are whole calls. *)
+Theorem C10_cancel_serialised :
+  Generated.c10_cancel_locks = true /\ Generated.c10_cancel_unlocks = true.
+Proof. exact cancel_serialised_now. Qed.
+Print Assumptions C10_cancel_serialised.
 
 (* A nil error means the node took the replacement (a failing SendTransaction is an error). *)
 Theorem C10_ok_only_if_accepted : forall c l tip price s b,
@@ -83,17 +122,21 @@ Print Assumptions C10_checker_silent_on_model.
 (* ---- composition with C08 (proofs/Compose_chain.v) -----------------------------------------------------------
    In the theorems above the answer of TransactionByHash is an oracle value.  In the combined machine of
    proofs/Compose_chain.v ([crun cl ops], operations OSend / OConf / ORestart as in model/EvmSend.v plus
-   OCancel) it is given by the history of the sender itself: a cancellation names, by position, one of the
-   transactions this sender's Send calls got accepted so far, and the node answers with that transaction
-   (its Nonce() is the nonce it was submitted with; fee fields, pending flag, tip suggestion, signing and
-   submission answers stay free).  Frame fact: CancelTx never assigns c.nonce and never stores the monitor's
-   confirmed nonce -- regenerated from evmclient.go on every run (C10_cancel_frame below); the CancelTx step
-   of the combined machine consults it.  Non-vacuity: Compose_chain.ex_chain. *)
+   OCancel) a cancellation either names, by position, one of the transactions this sender's Send calls got
+   accepted so far (k_target = Some i: the node answers with that transaction, whose Nonce() is the nonce it
+   was submitted with), or targets any other hash (k_target = None: the node answers with a free value, any
+   nonce, any sender -- CancelTx has no sentTxs / sender test, C10_any_pending_target); fee fields, pending
+   flag, tip suggestion, signing and submission answers stay free.  [Compose_chain.own_targets ops]: every
+   cancellation of the history is of the first kind.  The CancelTx step consults [Compose_chain.machine_ok],
+   computed from gen/Generated.v: the frame of CancelTx (C10_cancel_frame) and both calls holding c.mtx
+   (C10_cancel_serialised, EvmSend_proofs.send_serialised_now).  Non-vacuity: Compose_chain.ex_chain. *)
 From MevVerif Require model.EvmSend proofs.Compose_chain.
 
-(* C10 o C08.  Every replacement that reaches the node carries the nonce of a transaction that an earlier
-   Send of this very history got accepted -- it opens no new nonce -- and has the no-op shape of C10_shape. *)
+(* C10 o C08.  When every cancellation names one of the sender's own accepted transactions: every replacement
+   that reaches the node carries the nonce of a transaction that an earlier Send of this very history got
+   accepted -- it opens no new nonce -- and has the no-op shape of C10_shape. *)
 Theorem C10_cancel_reuses_submitted_nonce : forall cl ops pre t b post,
+  Compose_chain.own_targets ops ->
   Compose_chain.crun cl ops = pre ++ Compose_chain.ECancel (CSubmit t b) :: post ->
   (exists n, In n (EvmSend.accepted (Compose_chain.send_events pre)) /\ x_nonce t = Z.of_N n) /\
   x_chain t = chain cl /\ x_to t = owner cl /\ x_value t = 0 /\ x_data t = [] /\ x_gas t = 21000.
@@ -115,3 +158,30 @@ Proof.
         (conj Compose_chain.cancel_frame_ok_now Compose_chain.sender_writes_now))).
 Qed.
 Print Assumptions C10_cancel_frame.
+
+(* For every target, own or foreign, the replacement has the no-op shape. *)
+Theorem C10_cancel_shape_any_target : forall cl ops pre t b post,
+  Compose_chain.crun cl ops = pre ++ Compose_chain.ECancel (CSubmit t b) :: post ->
+  x_chain t = chain cl /\ x_to t = owner cl /\ x_value t = 0 /\ x_data t = [] /\ x_gas t = 21000.
+Proof. exact Compose_chain.cancel_shape_any. Qed.
+Print Assumptions C10_cancel_shape_any_target.
+
+(* C10 o C08 (C08_window).  With own targets the in-flight window covers the replacements too: the nonce of a
+   replacement is at most 1024 beyond the highest confirmed nonce the node had reported before it. *)
+Theorem C10_cancel_window : forall cl ops pre t b post,
+  Compose_chain.own_targets ops ->
+  Compose_chain.crun cl ops = pre ++ Compose_chain.ECancel (CSubmit t b) :: post ->
+  x_nonce t <= Z.of_N (EvmSend.max_list (EvmSend.confs (Compose_chain.send_events pre)) + 1024).
+Proof. exact Compose_chain.cancel_window. Qed.
+Print Assumptions C10_cancel_window.
+
+(* The premise is needed for both: a foreign pending transaction with nonce 5000 is replaced under nonce 5000, a
+   nonce this sender never submitted and beyond its window. *)
+Theorem C10_foreign_target_refuted :
+  exists cl ops pre t post,
+    EvmSend.wf_ops (Compose_chain.strip ops) /\ ~ Compose_chain.own_targets ops /\
+    Compose_chain.crun cl ops = pre ++ Compose_chain.ECancel (CSubmit t true) :: post /\
+    (forall n, In n (EvmSend.accepted (Compose_chain.send_events pre)) -> x_nonce t <> Z.of_N n) /\
+    Z.of_N (EvmSend.max_list (EvmSend.confs (Compose_chain.send_events pre)) + 1024) < x_nonce t.
+Proof. exact Compose_chain.foreign_target_refuted. Qed.
+Print Assumptions C10_foreign_target_refuted.
